@@ -33,7 +33,7 @@ ASSUMPTIONS = [
 def floors(tier):
     return {"cut:ubx-header": 50, "cut:ubx-length": 50, "cut:ubx-payload": 50, "cut:ubx-checksum": 50,
             "cut:nmea-body": 50, "cut:nmea-crlf": 20, "cut:rtcm-header": 50, "cut:rtcm-payload": 50,
-            "cut:rtcm-crc": 50, "cut:boundary": 50, "garbage-cuts": 2000, "resumed-after-cut": 300}
+            "cut:rtcm-crc": 50, "cut:boundary": 50, "garbage-cuts": 2000, "resumed-after-cut": 300, "socket-cut:reset": 500, "socket-cut:close": 500}
 
 
 def plan(tier, seed):
@@ -132,6 +132,26 @@ def check(case) -> core.Out:
                         v = (f"{PROP}|count|{cls}",
                              f"cut {k} ({cls}) of stream {data[:50].hex()}: {len(got)} items delivered, "
                              f"{want} accepted frames lie wholly before the cut")
+            if v is None and k % 5 == 2 and got is not None:
+                # the same cut seen through a socket: the peer closes, times out, resets
+                # or aborts the connection after S[:k] (however the cut is signalled, the
+                # output is that of the cut stream, and nothing is raised)
+                endk = ("close", "timeout", "reset", "aborted", "oserror")[(k // 5) % 5]
+                counts[f"socket-cut:{endk}"] = counts.get(f"socket-cut:{endk}", 0) + 1
+                so = S.ScriptedSocket(data[:k], [53] * (k // 53 + 2), endk)
+                try:
+                    g2, e2 = S.read_all(so, dict(opts, bufsize=64), S.handler_returning(k) if opts["quitonerror"] == 1 else None,
+                                        limit=4 * len(data) + 50)
+                    if e2 is not None:
+                        v = (f"{PROP}|raises:{type(e2).__name__}|socket:{endk}",
+                             f"stream cut at {k} by a socket peer ({endk}): {e2!r} ({S.opts_label(opts)})")
+                    elif not S.same_items(g2, got):
+                        v = (f"{PROP}|socket-cut-differs|{endk}", f"cut {k} over a socket ({endk}) yields {len(g2)} items, "
+                                                                  f"the cut file {len(got)}")
+                except S.HarnessHang:
+                    v = (f"{PROP}|hang|socket:{endk}", f"cut {k} over a socket: reader did not terminate")
+                finally:
+                    so.close()
             if v is None and clean and cls == "boundary" and 0 < k < len(data) and counts[lab] <= 6:
                 # the cut is an interruption: iteration stops, the rest of the stream
                 # arrives, and the same reader object is iterated again
@@ -189,8 +209,14 @@ def run_shard(spec, ctx, acc):
     @st.composite
     def blockcase(draw):
         n = draw(st.sampled_from([4094, 5000, 8190, 9000, 12286]))
-        big = streams.item("ubx", S.codec.ubx_frame(b"\x0c\x10", b"", b"")[:0] or
-                           S.codec.ubx_frame(b"\x0c", b"\x10", hashlib.shake_256(bytes([n & 0xFF])).digest(n)), "len>=256")
+        which = draw(st.sampled_from(["ubx", "ubx", "nmea", "rtcm"]))
+        if which == "nmea":
+            # a long (valid) sentence: 4 KiB and more of text before the line end
+            big = streams.item("nmea", S.codec.nmea_frame("GNTXT,01,01,02," + "LONG TEXT " * (n // 10)), "huge")
+        elif which == "rtcm":
+            big = streams.item("rtcm", S.codec.rtcm_frame(bytes([0xFF, 0xF0]) + hashlib.shake_256(bytes([n & 0xFF])).digest(1021)), "big")
+        else:
+            big = streams.item("ubx", S.codec.ubx_frame(b"\x0c", b"\x10", hashlib.shake_256(bytes([n & 0xFF])).digest(n)), "len>=256")
         pre = draw(streams.ubx_items())
         post = draw(streams.ubx_items())
         items = [pre, big, post]
@@ -204,7 +230,7 @@ def run_shard(spec, ctx, acc):
         return {"kind": "cuts", "items": items, "opts": o, "clean": True, "cuts": cuts}
 
     core.hyp_search(acc, blockcase(), check, seed=core.derive(ctx["seed"], PROP, "b", spec["part"]),
-                    max_examples=4 if quick else 60, known=known, rounds=2, shrink=False)
+                    max_examples=6 if quick else 80, known=known, rounds=2, shrink=False)
     core.hyp_search(acc, clean, check, seed=core.derive(ctx["seed"], PROP, "c", spec["part"]),
                     max_examples=45 if quick else 600, known=known, rounds=2, shrink=not quick)
     core.hyp_search(acc, garb, check, seed=core.derive(ctx["seed"], PROP, "g", spec["part"]),
